@@ -122,7 +122,7 @@ def run(ctx):
             named = rng.random() < 0.5
             d = os.path.join(wd.path, "c%d" % i)
             os.makedirs(d)
-            conv = rng.choice(["data_uri", "data_uri", "counting", "counting_alt", "no_open"])
+            conv = rng.choice(["data_uri", "data_uri", "counting", "counting_alt", "counting_alt_empty", "no_open"])
             if i < 2:
                 # dedicated cases: one embedded image larger than any 64 KiB block, default converter / counting converter
                 from mammoth.docx.xmlparser import element as X
@@ -173,11 +173,13 @@ def run(ctx):
                             bad = "image %d: src is not a data URI of the part's bytes under content type %s" % (k, ct)
                         elif (a.get("alt") or None) != (alt or None):
                             bad = "image %d: alt %r, expected %r" % (k, a.get("alt"), alt)
-                    elif conv in ("counting", "counting_alt"):
+                    elif conv in ("counting", "counting_alt", "counting_alt_empty"):
                         if a.get("src") != "img%d.%s" % (k, str(ct).partition("/")[2]) or a.get("data-len") != str(len(data_)):
                             bad = "image %d: the converter was not called once, in order, with the content type and the bytes (%r)" % (k, a)
                         elif conv == "counting_alt" and a.get("alt") != "custom":
                             bad = "image %d: the converter's alt did not take precedence" % k
+                        elif conv == "counting_alt_empty" and a.get("alt") != "":
+                            bad = "image %d: the converter returned alt='' but the output has alt=%r (document alt %r)" % (k, a.get("alt"), alt)
                         elif conv == "counting" and (a.get("alt") or None) != (alt or None):
                             bad = "image %d: alt %r, expected %r" % (k, a.get("alt"), alt)
                     else:
@@ -196,8 +198,9 @@ def run(ctx):
                 ctx.nontrivial(i)
                 if len(exp) > 1:
                     ctx.sample({"images": [(ct, None if b_ is None else len(b_), alt) for ct, b_, alt in exp], "converter": conv})
-            terms.append(A.case_term(parts, named, linked, opts, html, raw))
-            metas.append(meta)
+            if conv != "counting_alt_empty":
+                terms.append(A.case_term(parts, named, linked, opts, html, raw))
+                metas.append(meta)
     for i in ctx.coq_eval("c17", A.HEADER + IMG_HEADER, terms, A.CASE_TYPE, "chk_api", shard=10, more=("chk_imgs", "chk_imgs_domain"))[:5]:
         ctx.violation("correspondence", "model and implementation disagree",
                       dict(metas[i], obligation="correspondence Model/Api.v vs mammoth.convert_to_html"), False)
